@@ -542,7 +542,12 @@ func corrFailfs(seed uint64, tier string, replay []string) *lib.Result {
 				after := rawDump(base)
 				st.Count(op+"|"+lib.OutcomeClass(o)+"|refuse-all", op+"|refuse-all|"+lib.OutcomeClass(o))
 				exempt := op == "getwd" || op == "setumask" || op == "setuser" || op == "file.name" || op == "dump" || op == "snap" || op == "viewinfo" ||
-					o == "err closed" || o == "err badhandle" || strings.HasPrefix(o, "err nohandle")
+					o == "err closed"
+				if f[2] == "file" && len(f) > 3 {
+					if _, open := w.handles[atoiS(f[3])]; !open {
+						exempt = true // the history refers to a handle that was never opened (its open failed): nothing is called
+					}
+				}
 				if before != after {
 					report("failfs.refuse-all-effect."+op, fmt.Sprintf("with a failure function that refuses everything the call %q changed the base (%q)", l, o), hist[:i+1], o)
 				} else if !exempt && !strings.Contains(o, "injected") && o != "panic" && o != "hang" {
